@@ -116,6 +116,18 @@ def run(e: Engine, rep: Report):
              'application\'s decision')
     rep.tables.add('c06.PRE_CALLBACK_REFUSALS')
     x11(e, rep)
+    rep.rule('X12', 'the header block is a function of the envelope alone: '
+             'what Envelope.flatten() hands the message generator (policy '
+             'and the other settings) does not depend on an argument that '
+             'a caller in the package sets, so both ends of a hop flatten '
+             'the same message to the same bytes')
+    x12(e, rep)
+    rep.rule('X13', 'address provenance in the SMTP client: the path '
+             'between the delimiters of MAIL / RCPT is the method\'s '
+             'address argument, encoded only; a client that rewrites it '
+             'under a pattern with an ASCII-only character class changes '
+             'valid UTF-8 addresses')
+    x13(e, rep)
     rep.floor('X1', 4, 'command framing obligations')
     rep.floor('X4', 6, 'HTTP agreement obligations')
 
@@ -1123,3 +1135,275 @@ def _x11_check(rep, where, meth, cb, code, c):
                           meth, code, sorted(PRE_CALLBACK_REFUSALS)),
                       loc=c.loc(), reason=PRE_CALLBACK_REFUSALS.get(
                           str(code), ''))
+
+
+# --------------------------------------------------------------------- X12
+ENVELOPE = 'slimta.envelope.Envelope'
+
+
+def x12(e: Engine, rep: Report):
+    ctx = e.method_ctx(ENVELOPE, 'flatten')
+    if ctx is None:
+        rep.error('anchor vanished: Envelope.flatten')
+        return
+    g = e.build(ctx, raises=lambda b, nn, r: set(),
+                inline=e.inline_same_self(), max_depth=3)
+    rep.functions.add(ctx.func.qname)
+    root = ctx.func
+    params = [p for p in root.params if p != 'self']
+    gens = [c for c in g.nodes if c.kind == 'call' and
+            e.call_name(c) in ('BytesGenerator', 'Generator')]
+    if not gens:
+        rep.unknown('X12', root.qname, 'generator settings are fixed',
+                    'no BytesGenerator(...) call is visible from flatten()',
+                    loc=root.loc())
+        return
+    # which parameters does some caller in the package set?
+    set_by = {}
+    pos = {p: i for i, p in enumerate(params)}
+    for f in e.p.functions.values():
+        for c in walk_own(f.node):
+            if isinstance(c, ast.Call) and \
+                    isinstance(c.func, ast.Attribute) and \
+                    c.func.attr == 'flatten' and \
+                    f.qname.rpartition('.')[0] != ENVELOPE:
+                for p in params:
+                    if pos[p] < len(c.args) or any(
+                            k.arg == p or k.arg is None
+                            for k in c.keywords):
+                        set_by.setdefault(p, '%s:%d' % (f.module.relpath,
+                                                        c.lineno))
+    for c in gens:
+        rep.evaluations += 1
+        where = '%s -> %s' % (root.qname, c.frame.ctx.func.name)
+        dep = None
+        for a in list(c.ast.args[1:]) + [k.value for k in c.ast.keywords]:
+            x = common.expand(g, a, c.frame)
+            for nm in ast.walk(x):
+                if isinstance(nm, ast.Name) and nm.id in set_by:
+                    dep = (nm.id, ' '.join(ast.unparse(x).split())[:60])
+        rep.check(dep is None, 'X12', where,
+                  'generator settings are fixed',
+                  'the generator is set up with `%s`, which depends on '
+                  'flatten() argument `%s` that %s sets: the sending side '
+                  'writes the header block one way, the receiving side '
+                  '(which flattens with the default) another, so a header '
+                  'that has to be refolded does not arrive byte for byte'
+                  % (dep[1] if dep else '', dep[0] if dep else '',
+                     set_by.get(dep[0]) if dep else ''), loc=c.loc(),
+                  reason='settings do not depend on a caller-set argument '
+                  '(arguments set by callers: %s)' % (sorted(set_by) or
+                                                      'none'))
+
+
+# --------------------------------------------------------------------- X13
+def _ascii_only_class(pattern, flags=0):
+    """text of a character class in the pattern that takes ASCII letters but
+    no character above 127 (positive class without categories), or None"""
+    sc = rx._consts()
+
+    def walk(items):
+        for op, av in items:
+            if op in (sc.MAX_REPEAT, sc.MIN_REPEAT):
+                r = walk(list(av[2]))
+            elif op == sc.SUBPATTERN:
+                r = walk(list(av[3]))
+            elif op == sc.BRANCH:
+                r = None
+                for alt in av[1]:
+                    r = r or walk(list(alt))
+            elif op == sc.IN:
+                r = None
+                if not any(o in (sc.NEGATE, sc.CATEGORY) for o, _ in av):
+                    cs = set()
+                    for o, a in av:
+                        if o == sc.LITERAL:
+                            cs.add(a)
+                        elif o == sc.RANGE:
+                            cs |= {a[0], a[1]}
+                            if a[0] <= 97 <= a[1]:
+                                cs.add(97)
+                    if 97 in cs and max(cs) < 128:
+                        r = 'a class that ends at %r' % chr(max(cs))
+            else:
+                r = None
+            if r:
+                return r
+        return None
+    try:
+        return walk(list(rx.parse(pattern, flags)))
+    except Exception:
+        return None
+
+
+def x13(e: Engine, rep: Report):
+    n = 0
+    for cq in e.concrete_classes(CLIENT):
+        for meth, verb in (('mailfrom', b'MAIL'), ('rcptto', b'RCPT')):
+            ctx = e.method_ctx(cq, meth)
+            where = '%s[%s]' % (ctx.func.qname, cq.rpartition('.')[2])
+            rep.functions.add(ctx.func.qname)
+            g = e.build(ctx, raises=lambda b, nn, r: set(),
+                        inline=e.inline_same_self(deny=['_flush_pipeline']),
+                        max_depth=3)
+            argp = ctx.func.params[1] if len(ctx.func.params) > 1 else None
+            site = None
+            for c, arg in _sent_commands(e, g):
+                sh = common.bytes_shape(g, arg, c.frame)
+                if sh and sh[0][0] == 'lit' and \
+                        isinstance(sh[0][1], bytes) and \
+                        sh[0][1].upper().startswith(verb + b' '):
+                    site = (c, arg)
+            if site is None or argp is None:
+                rep.error('cannot read the %s command line %s sends'
+                          % (verb.decode(), where))
+                continue
+            c, arg = site
+            ops, unknown, frames = [], [], set()
+
+            def defs_of(name, fr):
+                fn = fr.ctx.func
+                out = []
+                for a in walk_own(fn.node):
+                    if isinstance(a, ast.Assign):
+                        for t in a.targets:
+                            if isinstance(t, ast.Name) and t.id == name:
+                                out.append(a.value)
+                            elif isinstance(t, (ast.Tuple, ast.List)) and \
+                                    any(isinstance(el, ast.Name) and
+                                        el.id == name for el in t.elts):
+                                out.append(a.value)
+                    elif isinstance(a, ast.AugAssign) and \
+                            isinstance(a.target, ast.Name) and \
+                            a.target.id == name:
+                        out.append(a)
+                return out
+
+            def flow(x, fr, depth=0, seen=None):
+                """follows the address part of the command back to the
+                method's argument; collects what changes it on the way"""
+                seen = seen if seen is not None else set()
+                if depth > 12 or (id(x), id(fr)) in seen:
+                    return
+                seen.add((id(x), id(fr)))
+                if isinstance(x, ast.Constant):
+                    return
+                if isinstance(x, ast.Name):
+                    fn = fr.ctx.func
+                    ds = defs_of(x.id, fr)
+                    if x.id in fn.params:
+                        if fr is g.entry.frame:
+                            if x.id != argp:
+                                unknown.append(x)
+                        elif x.id in getattr(fr, 'arg_exprs', {}):
+                            a, af = fr.arg_exprs[x.id]
+                            flow(a, af, depth + 1, seen)
+                        else:
+                            unknown.append(x)
+                    elif not ds:
+                        unknown.append(x)
+                    for d in ds:
+                        flow(d, fr, depth + 1, seen)
+                    return
+                if isinstance(x, ast.IfExp):
+                    flow(x.body, fr, depth + 1, seen)
+                    flow(x.orelse, fr, depth + 1, seen)
+                    return
+                if isinstance(x, ast.Call):
+                    f = x.func
+                    nm = f.attr if isinstance(f, ast.Attribute) else (
+                        f.id if isinstance(f, ast.Name) else None)
+                    if nm in ('encode', 'decode') and \
+                            isinstance(f, ast.Attribute):
+                        flow(f.value, fr, depth + 1, seen)
+                        return
+                    if nm in ('str', 'bytes') and x.args:
+                        flow(x.args[0], fr, depth + 1, seen)
+                        return
+                    vals = common.values_of(g, x, fr)
+                    if not (len(vals) == 1 and vals[0][0] is x):
+                        for v, f2 in vals:
+                            flow(v, f2, depth + 1, seen)
+                        return
+                ops.append((x, fr))
+                frames.add(id(fr))
+            sh = common.bytes_shape(g, arg, c.frame)
+            # the part between the delimiters: after the first literal
+            x0 = None
+            if len(sh) >= 2 and sh[1][0] == 'opaque':
+                x0 = sh[1][1]
+            # bytes_shape works on the expanded text; follow the original
+            # expression where the join is written out
+            a0, f0 = common.origin(g, arg, c.frame)
+            if isinstance(a0, ast.Name):
+                # cmd = <start>; cmd += <parameters>
+                asg = [a for a in walk_own(f0.ctx.func.node)
+                       if isinstance(a, ast.Assign) and any(
+                           isinstance(t, ast.Name) and t.id == a0.id
+                           for t in a.targets)]
+                if len(asg) == 1:
+                    a0 = asg[0].value
+            els = _bytes_literals_of_join(a0)
+            if els and len(els) >= 2:
+                flow(els[1], f0)
+            elif isinstance(a0, ast.BinOp):
+                parts = []
+
+                def adds(y):
+                    if isinstance(y, ast.BinOp) and isinstance(y.op,
+                                                               ast.Add):
+                        adds(y.left)
+                        adds(y.right)
+                    else:
+                        parts.append(y)
+                adds(a0)
+                if len(parts) >= 2:
+                    flow(parts[1], f0)
+                else:
+                    unknown.append(a0)
+            elif x0 is not None:
+                flow(x0, c.frame)
+            else:
+                unknown.append(arg)
+            n += 1
+            rep.evaluations += 1
+            what = 'the %s path is the address given, encoded' % \
+                verb.decode()
+            if not ops and not unknown:
+                rep.check(True, 'X13', where, what, '', loc=c.loc(),
+                          reason='argument `%s`, encode() only' % argp)
+                continue
+            # patterns consulted where the address is rewritten
+            bad = None
+            for x, fr in ops:
+                fn = fr.ctx.func
+                for y in walk_own(fn.node):
+                    if isinstance(y, ast.Call) and \
+                            isinstance(y.func, ast.Attribute) and \
+                            y.func.attr in ('match', 'search', 'fullmatch') \
+                            and isinstance(y.func.value, ast.Name):
+                        got = rx.module_pattern(e, fn.module.name,
+                                                y.func.value.id)
+                        if got is None:
+                            continue
+                        cls = _ascii_only_class(got[0], got[1])
+                        if cls:
+                            bad = (y.func.value.id, cls, x, fn)
+            if bad:
+                rep.check(False, 'X13', where, what,
+                          'the client rewrites the address (`%s` in %s) '
+                          'depending on %s, which has %s: a valid local '
+                          'part with UTF-8 in it (SMTPUTF8) is taken for '
+                          'one that needs rewriting, and the edge receives '
+                          'another mailbox than the relay was given'
+                          % (' '.join(ast.unparse(bad[2]).split())[:50],
+                             bad[3].name, bad[0], bad[1]), loc=c.loc())
+            else:
+                first = ops[0][0] if ops else unknown[0]
+                rep.unknown('X13', where, what, 'the path is built with '
+                            '`%s`: cannot decide that every valid address '
+                            'goes out as given'
+                            % ' '.join(ast.unparse(first).split())[:60],
+                            loc=c.loc())
+    if n < 2:
+        rep.error('anchor vanished: MAIL / RCPT command sites (%d < 2)' % n)
